@@ -307,7 +307,7 @@ def s7(ck, an):
         if e.attr == "queue":
             ck.check(e.kind == "R", "EFFECT", "S7.parse-reads-only", fp.f.short, e.loc, "parse only reads the queue", "parse modifies the queue", construct=stmt_text(e.node))
     for f in an.functions():
-        if f.short in ("State.__init__", "State.process_EventNewObservation", "State.parse"):
+        if all(g.short in ("State.__init__", "State.process_EventNewObservation", "State.parse") for g in an.attributed(f)):
             continue
         for e in an.fa(f).effects():
             if e.attr == "queue" and e.owner in ("State", "?") and e.kind in "MWD":
